@@ -113,3 +113,17 @@ Theorem compression_only_after_confirmation_then_restart :
   (forall s, comp_active (fst (NegModel.conn_disconnect s)) = comp_active s).
 Proof. exact compression_switch. Qed.
 Print Assumptions compression_only_after_confirmation_then_restart.
+
+(* ... and the handler that acts on <compressed/> is registered only by _handle_features_compress (together with
+   the <compress/> request, see the fourth clause above): no other stanza handler, id handler, open handler,
+   stream start/end or timed handler adds it. *)
+Theorem compress_answer_handler_registered_only_with_request :
+  (forall k n e s, k <> HFeaturesCompress ->
+     h_has HCompressResult (fst (fst (call_handler k n e s))) = true -> h_has HCompressResult s = true) /\
+  (forall k n e s, h_has HCompressResult (fst (call_id_handler k n e s)) = true -> h_has HCompressResult s = true) /\
+  (forall n s, h_has HCompressResult (fst (open_handler n s)) = true -> h_has HCompressResult s = true) /\
+  (forall n a b s, h_has HCompressResult (fst (stream_start n a b s)) = true -> h_has HCompressResult s = true) /\
+  (forall s, h_has HCompressResult (fst (stream_end s)) = true -> h_has HCompressResult s = true) /\
+  (forall n s, h_has HCompressResult (fst (fire_timed n s)) = true -> h_has HCompressResult s = true).
+Proof. exact compress_result_registration. Qed.
+Print Assumptions compress_answer_handler_registered_only_with_request.
